@@ -227,14 +227,19 @@ func c08GenFacts() (string, string) {
 	// printed bodies (without comments) of the functions the C08 models were written against
 	ipl := parse("interpolation/interpolation.go")
 	ms := parse("loader/mapstructure.go")
-	yn := parse("utils/yamlnumber.go")
+	// the YAML number readers live in utils/stringutils.go since the round-5 repair (utils.ParseYAMLInt / ParseYAMLFloat);
+	// on a tree that still has them in loader/interpolate.go read them there, so that only C08's pin breaks
+	yn, ynInt, ynFloat := parse("utils/stringutils.go"), "ParseYAMLInt", "ParseYAMLFloat"
+	if c08FuncDecl(yn, ynInt) == nil {
+		yn, ynInt, ynFloat = ip, "parseYAMLInt", "parseYAMLFloat"
+	}
 	bodies := [][2]string{
 		{"c08_body_Interpolate", funcBody(ipl, "", "Interpolate")},
 		{"c08_body_recursiveInterpolate", funcBody(ipl, "", "recursiveInterpolate")},
 		{"c08_body_newPathError", funcBody(ipl, "", "newPathError")},
 		{"c08_body_getCasterForPath", funcBody(ipl, "Options", "getCasterForPath")},
-		{"c08_body_parseYAMLInt", funcBody(yn, "", "ParseYAMLInt")},
-		{"c08_body_parseYAMLFloat", funcBody(yn, "", "ParseYAMLFloat")},
+		{"c08_body_parseYAMLInt", funcBody(yn, "", ynInt)},
+		{"c08_body_parseYAMLFloat", funcBody(yn, "", ynFloat)},
 		{"c08_body_toInt", funcBody(ip, "", "toInt")},
 		{"c08_body_toInt64", funcBody(ip, "", "toInt64")},
 		{"c08_body_toFloat", funcBody(ip, "", "toFloat")},
